@@ -4,7 +4,7 @@ from engines.linefuzz import delivered
 
 globals().update(make(
     'C03', ('wake',),
-    [('contention', 4), ('general', 3), ('groups', 3), ('buffers', 2), ('interrupt', 1), ('batching', 1)],
+    [('contention', 4), ('general', 3), ('groups', 4), ('buffers', 2), ('noise', 2), ('interrupt', 1), ('batching', 1)],
     'Oracle (counterfactual probe): at every quiescent instant (the clock is about to advance) every device holding a '
     'READY part (operational handler/processor/batcher with an output part; source with output and budget left; '
     'buffer whose head has waited its minimum delay) is deep-copied together with the whole System and the part is '
@@ -12,7 +12,7 @@ globals().update(make(
     '20000 consecutive events execute without the clock advancing is a zero-time livelock (the run would not '
     'return); a per-case watchdog hit is a violation too (statement: a finite-horizon run of a well-posed model '
     'always returns). Non-trivial = at least one ready part was probed (found genuinely blocked) at a quiescent '
-    'instant AND that same part was handed over later; distinct = SHA-1 of the canonical spec JSON.',
+    'instant AND that same part was handed over later. The mix includes the float-noise buffer profile (decimal delays and cycle times such as 1.1 / 7.3): the probe needs no exact arithmetic; distinct = SHA-1 of the canonical spec JSON.',
     lambda mon, case: mon.c['probes'] > 0 and mon.c['handovers_after_block'] > 0,
     lambda mon, case: sorted({'unblock:' + a[1] for a in mon.m.action_log
                               if a[1] in ('restore', 'block', 'addres', 'adjust', 'rewire_add', 'maint', 'wo')}),
